@@ -507,6 +507,9 @@ class Evaluator:
             return SV(INT, z3.IntVal(v))
         if isinstance(v, str):
             return SV(STR, z3.StringVal(v))
+        if isinstance(v, float):
+            # floats only occur as opaque time-outs here; no arithmetic is done on them
+            return SV(U('Float'), z3.Const(f'float_{str(v).replace(".", "_").replace("-", "m")}', self.ctx.sort(U('Float'))))
         raise Unsupported(f'constant {v!r}')
 
     def ev_Name(self, n):
@@ -1273,6 +1276,12 @@ class CallEval:
         if t.k == 'mapvalues' and False:
             pass
         raise Unsupported(f'set()/list() of {t}')
+
+    def fn_defaultdict(self, n):
+        h = self.e.hint
+        if h is not None and h.k == 'dset' and len(n.args) == 1 and isinstance(n.args[0], ast.Name) and n.args[0].id in ('set', 'list'):
+            return SV(h, self.ctx.empty_dset(*h.args))
+        raise Unsupported('defaultdict(...) outside a declared field of type DSet')
 
     def fn_OrderedSet(self, n):
         return self.fn_set(n)
